@@ -293,6 +293,26 @@ def check_fields(rep, ix):
     rep.ob('R-C09-FIELDS', f'{M}:string_to_value', 'values are typed as int, float, yes/no or stripped text', nonstr and any('strip' in _n(n) for n in walk_no_nested(stv)), found=str(kinds), node=stv, module=m)
 
 
+def check_index(rep, ix):
+    """R-C09-INDEX: the ordinal stored for a mnemonic is its position in self.members (members keeps repeated mnemonics, so a
+    count of the distinct ones seen so far drifts behind the positions after the first repeat)"""
+    m = ix.module(M)
+    f = ix.get_func(M, 'LASSection.create_index')
+    site = f'{M}:LASSection.create_index'
+    rep.fn(site)
+    stores = [n for n in walk_no_nested(f) if isinstance(n, ast.Assign) and len(n.targets) == 1 and isinstance(n.targets[0], ast.Subscript) and _n(n.targets[0].value) == 'self.mnemonic_index_map']
+    counters = set()
+    for n in walk_no_nested(f):
+        if isinstance(n, ast.For) and isinstance(n.iter, ast.Call) and _n(n.iter.func) == 'enumerate' and len(n.iter.args) == 1 and not n.iter.keywords and _n(n.iter.args[0]) == 'self.members' \
+                and isinstance(n.target, ast.Tuple) and isinstance(n.target.elts[0], ast.Name):
+            rebound = [x for x in ast.walk(n) if isinstance(x, ast.Name) and isinstance(x.ctx, ast.Store) and x.id == n.target.elts[0].id and x is not n.target.elts[0]]
+            if not rebound and all(any(st is y for y in ast.walk(n)) for st in stores):
+                counters.add(n.target.elts[0].id)
+    ok = bool(stores) and all(isinstance(st.value, ast.Name) and st.value.id in counters for st in stores)
+    rep.ob('R-C09-INDEX', site, 'the ordinal stored for a mnemonic is its position in self.members (the enumerate() counter of the loop over the members)', ok,
+           found='; '.join(_n(st) for st in stores), required='self.mnemonic_index_map[k] = <counter of enumerate(self.members)>', node=stores[0] if stores else f, module=m)
+
+
 def check_kinds(rep, ix):
     m = ix.module(M)
     init = ix.get_func(M, 'LASSectionArray.__init__')
@@ -411,6 +431,7 @@ def run(rep, ix, tier):
     check_choke(rep, ix)
     check_fields(rep, ix)
     check_kinds(rep, ix)
+    check_index(rep, ix)
     check_wrap(rep, ix)
     rep.floor('R-C09-REGEX', 5)
     rep.floor('R-C09-CHOKE', 9)
